@@ -16,6 +16,40 @@ pub const CTX_CHANNELED: u8 = 3;
 pub const CTX_CONSUMER: u8 = 4;
 
 pub static mut CTX: u8 = CTX_CLIENT;
+/// a schedule-placed unit is running nested inside a suspended host
+pub static mut IN_UNIT: bool = false;
+/// placement of the unit: the `occ`-th scheduling point of kind/obj after arming
+pub static mut PLACE: (u8, usize, u8) = (0, 0, 0);
+pub static mut PLACE_SEEN: u8 = 0;
+pub static mut PLACE_ARMED: bool = false;
+pub static mut PLACE_FIRED: bool = false;
+
+/// true exactly once: when the armed placement is reached (and no unit is running)
+#[inline(always)]
+pub fn at_placement(kind: u8, obj: usize) -> bool {
+    unsafe {
+        if !PLACE_ARMED || PLACE_FIRED || IN_UNIT {
+            return false;
+        }
+        if kind == PLACE.0 && obj == PLACE.1 {
+            let n = PLACE_SEEN;
+            PLACE_SEEN += 1;
+            if n == PLACE.2 {
+                PLACE_FIRED = true;
+                return true;
+            }
+        }
+        false
+    }
+}
+pub fn arm(kind: u8, obj: usize, occ: u8) {
+    unsafe {
+        PLACE = (kind, obj, occ);
+        PLACE_SEEN = 0;
+        PLACE_FIRED = false;
+        PLACE_ARMED = true;
+    }
+}
 
 #[inline(always)]
 pub fn ctx() -> u8 {
@@ -84,6 +118,11 @@ pub fn mutex_lock<T: ?Sized>(m: &std::sync::Mutex<T>) -> std::sync::LockResult<s
         Ok(g) => Ok(g),
         Err(std::sync::TryLockError::Poisoned(p)) => Err(p),
         Err(std::sync::TryLockError::WouldBlock) => {
+            if unsafe { IN_UNIT } {
+                // a unit placed by the schedule at a point where the suspended host holds the
+                // lock it needs: the unit is simply not enabled here (DESIGN.md §4.4)
+                kani::assume(false);
+            }
             panic!("VERIF-DEADLOCK: lock() on a mutex that is already held by a suspended context")
         }
     }
@@ -265,6 +304,10 @@ pub fn reset_all() {
     unsafe {
         CTX = CTX_CLIENT;
         CLOCK = 0;
+        IN_UNIT = false;
+        PLACE_ARMED = false;
+        PLACE_FIRED = false;
+        PLACE_SEEN = 0;
     }
     crossbeam::channel::reset();
     rusty_pool::ghost::reset();
